@@ -280,7 +280,11 @@ func (dec *ttlvReader) Struct(tag int, f func(reader) error) error {
 	if err := dec.assertType(TypeStructure, tag); err != nil {
 		return err
 	}
-	if err := f(&ttlvReader{buf: dec.value()}); err != nil {
+	sub, err := newTTLVReader(dec.value())
+	if err != nil {
+		return err
+	}
+	if err := f(sub); err != nil {
 		return err
 	}
 	return dec.Next()
